@@ -66,6 +66,12 @@ def programs(tier, rnd: random.Random):
               "{ int32_t a = RsV; RdV = (1 ? RtV : a); ReV = a; }", "{ RdV = (1 ? RsV : clz32(RtV)); }", "{ RdV = (0 ? ({ ReV = 1; RtV; }) : RsV); }",
               "{ int32_t a = RsV; RdV = (1 ? RtV : a++); ReV = a; }", "{ RdV = (2 > 1) ? RsV : RtV; }", "{ RdV = 4 / 2; }", "{ RdV = 5 % 0; }",
               "{ RdV = (4 / 2) ? RsV : RtV; }"]
+    # constant division / remainder (rejected today; if ever folded, it must be folded in the C result type: a negative constant divided in an
+    # unsigned common type divides the CONVERTED value), exact and inexact, every sign / suffix combination
+    for a_, b_ in (("(-6)", "2U"), ("(-6)", "2"), ("6", "3"), ("(-0x10)", "0x4U"), ("(-6 + 0U)", "2"), ("7", "2"), ("(-8)", "2ULL"), ("(-8LL)", "2U"), ("0x80000000", "2"),
+                   ("(-9)", "3U"), ("(1 - 7)", "2U"), ("6U", "(-3)")):
+        for op_ in ("/", "%"):
+            progs += [f"{{ RddV = {a_} {op_} {b_}; }}", f"{{ RdV = (({a_} {op_} {b_}) > 0) ? 1 : 2; }}"]
     return progs
 
 
